@@ -16,3 +16,6 @@ open Femio.C10
 #print axioms C10_flux_similarity
 #print axioms C10_volume_similarity
 #print axioms C10_enclosed_volume_translate
+#print axioms C10_obj_blockwise
+#print axioms C10_obj_roundtrip_blockwise
+#print axioms C10_obj_blockwise_joined_counterexample
